@@ -848,7 +848,7 @@ def g_layout(r, v, text):
             quote_used = True
         seps.append(s)
     del has_str
-    return {'v': v, 'toks': toks, 'seps': seps}
+    return {'v': v, 'toks': toks, 'seps': seps, 'text': text}
 
 
 def layout_compare(v, toks, seps):
@@ -876,7 +876,24 @@ def check_layout(case, out):
     out.dim('layout_comparisons:' + v, status)
     if status == 'baseline-unparsable':
         out.nontrivial = False
+        if case.get('text'):
+            ro = eparse(v, case['text'])
+            if ro[0] == 'ok':
+                # the compact original parses but the same terminals separated by single spaces do not
+                detail['original'] = case['text']
+                detail['version'] = v
+                detail['expected'] = tree_of(ro[1])
+                out.fail('C04/layout/%s/single-spaced' % vclass(v), detail)
         return
+    if case.get('text'):
+        ro = eparse(v, case['text'])
+        rb = eparse(v, ' '.join(toks))
+        if ro[0] == 'ok' and rb[0] == 'ok':
+            out.dim('layout_original_vs_single_spaced', v)
+            t1, t2 = pair_trees(v, case['text'], ro, ' '.join(toks), rb)
+            if t1 != t2:
+                out.fail('C04/layout/%s/single-spaced' % vclass(v),
+                         {'version': v, 'original': case['text'], 'baseline': ' '.join(toks), 'expected': t1, 'got': t2})
     lx = G.lex(v, ' '.join(toks)) or []
     lk = [k for k, _ in lx] if len(lx) == len(toks) else ['?'] * len(toks)
     for i, k in enumerate(kinds):
@@ -1056,7 +1073,7 @@ def shrink(kind, case):
             if s != ' ':
                 seps = list(case['seps'])
                 seps[i] = ' '
-                yield {'v': case['v'], 'toks': case['toks'], 'seps': seps}
+                yield {'v': case['v'], 'toks': case['toks'], 'seps': seps, 'text': case.get('text')}
 
 
 def run(h):
